@@ -621,4 +621,53 @@ theorem safe_compact {inp : Input} {a : Nat} {mask : List Nat} (hc : ¬ IsLvCr (
     · exact cross_of_noKills (noKills_readAll _ _) x hx y hy
     · exact cross_of_noKills hmidk x hx y hy
 
+theorem mem_iterEraseVec_block {a : Nat} {mask : List Nat} {i : Nat} {x : Instr}
+    (hx : x ∈ (Instr.read a i :: (if mask[i]? = some 0 then
+      Instr.pop a i .drop :: ((List.range (mask.length - (i + 1))).map fun j => Instr.shift a (i + 1 + j)) else []))) :
+    x = .read a i ∨ x = .pop a i .drop ∨ ∃ j, i < j ∧ j < mask.length ∧ x = .shift a j := by
+  simp only [List.mem_cons] at hx
+  rcases hx with rfl | hx
+  · exact Or.inl rfl
+  · split at hx
+    · simp only [List.mem_cons, List.mem_map, List.mem_range] at hx
+      rcases hx with rfl | ⟨j, hj, rfl⟩
+      · exact Or.inr (Or.inl rfl)
+      · exact Or.inr (Or.inr ⟨i + 1 + j, by omega, by omega, rfl⟩)
+    · exact absurd hx List.not_mem_nil
+
+theorem safe_iterEraseVec {inp : Input} {a : Nat} {mask : List Nat} (hc : ¬ IsLvCr (inp.cat a)) (hn : mask.length ≤ inp.size a) :
+    Safe inp (iterEraseVec a mask) := by
+  refine ⟨?_, ?_⟩
+  · intro x hx
+    simp only [iterEraseVec, List.mem_flatMap, List.mem_range] at hx
+    obtain ⟨i, hi, hx⟩ := hx
+    rcases mem_iterEraseVec_block hx with rfl | rfl | ⟨j, _, hj, rfl⟩
+    · exact (ok_read inp a i).2 (by omega)
+    · exact (ok_pop inp a i .drop).2 ⟨hc, by omega, destOk_drop inp⟩
+    · exact (ok_shift inp a j).2 ⟨hc, by omega⟩
+  · unfold Clean iterEraseVec
+    rw [List.pairwise_flatMap]
+    refine ⟨?_, ?_⟩
+    · intro i _
+      rw [List.pairwise_cons]
+      refine ⟨fun y _ b j hk _ => hk, ?_⟩
+      split
+      · rw [List.pairwise_cons]
+        refine ⟨?_, ?_⟩
+        · intro y hy b k hk hu
+          simp only [List.mem_map, List.mem_range] at hy
+          obtain ⟨j, _, rfl⟩ := hy
+          simp only [Instr.kills, Instr.uses] at hk hu
+          omega
+        · rw [List.pairwise_map]
+          exact List.Pairwise.imp (fun _ b k hk _ => hk) (@List.pairwise_lt_range _)
+      · exact List.Pairwise.nil
+    · refine List.Pairwise.imp ?_ (@List.pairwise_lt_range mask.length)
+      intro i i' hii x hx y hy b k hk hu
+      rcases mem_iterEraseVec_block hx with rfl | rfl | ⟨j, _, _, rfl⟩
+      · exact hk
+      · rcases mem_iterEraseVec_block hy with rfl | rfl | ⟨j', hj', _, rfl⟩ <;>
+          simp only [Instr.kills, Instr.uses] at hk hu <;> omega
+      · exact hk
+
 end Fcppt.C05
